@@ -1,7 +1,7 @@
 """C19 Unknown prepared statements are transparently re-prepared (W-FULL, protocols 4 and 5)."""
 from dsim import seams
 from dsim.core import HarnessError
-from props.common import gen_strategy, quiet_logging, Violations
+from props.common import gen_stalls, gen_strategy, quiet_logging, Violations
 from worlds.reqpath import ReqPathRun, base_plan, RETRY, RETRY_NEXT_HOST, RETHROW
 from worlds.full import ReqObs
 
@@ -61,6 +61,7 @@ def gen_plan(rng, tier):
         for r in p['requests']:
             r['reprepare'] = 'ok'       # the keyspace change alone decides the outcome
     p.update(strategy=gen_strategy(rng), line_p=rng.choice([0, 0, 0.01]), points=rng.choice([0, 2]), time_jump_p=0)
+    p.update(gen_stalls(rng, ['_set_result', '_reprepare', '_execute_after_prepare', '_query'], 0.2))
     return p
 
 
